@@ -164,7 +164,7 @@ func lastDeviation(tr []refsmtp.Exchange, idx int) string {
 func c04Exec(r *vf.Run, cfg c04Cfg, c *vf.Chooser) (keys []string, whats []string) {
 	sess := &refsmtp.Session{Host: hx.Host, Caps: capsFromMask(cfg.Caps)}
 	// after STARTTLS a *different* capability set is advertised: the three MAIL-parameter extensions are inverted
-	sess.CapsTLS = capsFromMask((cfg.Caps ^ 0b000111) &^ (1 << 4))
+	sess.CapsTLS = append([]string{}, capsFromMask((cfg.Caps^0b000111)&^(1<<4))...) // non-nil: an EMPTY set after STARTTLS is a single-line 250
 	sess.Script = stdScriptM(c)
 	sess.NewAuth = func(s *refsmtp.Session, mech string) refsmtp.AuthExchange {
 		if mech == "PLAIN" {
@@ -177,7 +177,7 @@ func c04Exec(r *vf.Run, cfg c04Cfg, c *vf.Chooser) (keys []string, whats []strin
 	var pre *refsmtp.Conn
 	if cfg.Redial {
 		ps := &refsmtp.Session{Host: hx.Host, Caps: capsFromMask(cfg.Caps ^ 0b101111)}
-		ps.CapsTLS = capsFromMask((cfg.Caps ^ 0b101000) &^ (1 << 4))
+		ps.CapsTLS = append([]string{}, capsFromMask((cfg.Caps^0b101000)&^(1<<4))...)
 		ps.NewAuth = sess.NewAuth
 		pre = refsmtp.NewConn(ps)
 		pre.TLSConfig = hx.ServerTLS(hx.Mat().Good)
